@@ -224,6 +224,8 @@ impl BreakSetup {
 
 #[derive(Default)]
 struct BreakOutcome {
+    /// for samples: what was observed (filled only when a sample is wanted)
+    observed: Option<Value>,
     lines: usize,
     failed: bool,
     hyphenated: bool,
@@ -572,6 +574,16 @@ fn run_break<F: boxworks::FontRepo>(
         }
         out.failed = true;
     }
+    if obs.wants_sample() {
+        out.observed = Some(json!({
+            "list_broken": model::render_list(&h),
+            "breakpoints": breaks,
+            "line_boxes": lines.iter().zip(&real_items).map(|(l, items)| json!({
+                "width": model::print_scaled(l.width), "shift": model::print_scaled(l.shift),
+                "content": model::render_list(items), "penalty_after": l.penalty_after,
+            })).collect::<Vec<_>>(),
+        }));
+    }
     obs.add("lines_checked", lines.len() as u64);
     obs.count(&format!("paragraphs_with_lines_{}", match lines.len() { 1 => "1", 2 => "2", 3..=5 => "3to5", 6..=15 => "6to15", _ => "16plus" }));
     out.canonical = stable_hash(&(model::render_list(&h), &breaks, &widths, &indents, left, right));
@@ -626,7 +638,7 @@ fn text_case(rng: &mut Rng, obs: &mut Obs, fixed: Option<(TextSetup, BreakSetup)
         obs.count("text_paragraphs_multi_line");
     }
     if obs.wants_sample() && o.lines >= 2 && text_ok && !o.failed {
-        obs.sample(json!({"text": ts.text, "setup": bs.json(), "lines": o.lines, "hyphenated": o.hyphenated}));
+        obs.sample(json!({"text": ts.text, "text_setup": ts.json(), "setup": bs.json(), "list_from_add_text": model::render_list(&m), "hyphenated": o.hyphenated, "observed": o.observed}));
     }
 }
 
@@ -655,7 +667,7 @@ fn list_case(rng: &mut Rng, obs: &mut Obs, fixed: Option<(Vec<ds::Horizontal>, B
         obs.count("list_paragraphs_multi_line");
     }
     if obs.wants_sample() && o.lines >= 2 && !o.failed {
-        obs.sample(json!({"list": rendered, "setup": bs.json(), "lines": o.lines}));
+        obs.sample(json!({"list": rendered, "setup": bs.json(), "observed": o.observed}));
     }
 }
 
@@ -821,6 +833,10 @@ fn known_case(idx: u64, rng: &mut Rng, obs: &mut Obs) {
 
 mod calib;
 
+/// (quick, thorough) sizes of the random phases; the two scale together (see `floors`).
+const TEXT_CASES: (u64, u64) = (150_000, 4_000_000);
+const LIST_CASES: (u64, u64) = (300_000, 8_000_000);
+
 impl Monitor for M {
     fn id(&self) -> &'static str {
         "C12"
@@ -857,56 +873,63 @@ impl Monitor for M {
             Phase::new("lists-enum", lists_enum_cases()).batch(512).exhaustive(
                 "all lists of 1..6 items over {char, glue, penalty, penalty-10000, explicit kern, disc{-|y|0}, disc{||1}+char}, 12pt lines, plain parameters",
             ),
-            Phase::new("text", tier.pick(150_000, 6_000_000)).batch(64),
-            Phase::new("lists", tier.pick(300_000, 12_000_000)).batch(128),
+            Phase::new("text", tier.pick(TEXT_CASES.0, TEXT_CASES.1)).batch(64),
+            Phase::new("lists", tier.pick(LIST_CASES.0, LIST_CASES.1)).batch(128),
         ]
     }
     fn floors(&self, tier: Tier) -> Vec<(&'static str, u64)> {
-        // quick-tier floors are roughly 40% of what seed 0 observes; thorough scales with the
-        // number of random cases (x40), the exhaustive phases do not scale
-        let m: u64 = if tier == Tier::Quick { 1 } else { 35 };
-        vec![
-            ("sf_enum_checked", SF_ENUM_CASES),
-            ("lists_enum_checked", lists_enum_cases()),
-            ("texts_checked", 140_000 * m),
-            ("lists_checked", 400_000 * m),
-            ("lines_checked", 900_000 * m),
-            ("text_paragraphs_multi_line", 50_000 * m),
-            ("list_paragraphs_multi_line", 120_000 * m),
-            ("paragraphs_hyphenated", 25_000 * m),
-            ("second_pass_reached", 150_000 * m),
-            ("text:break_at_glue", 100_000 * m),
-            ("text:break_at_disc", 20_000 * m),
-            ("text:disc_break_with_pre", 15_000 * m),
-            ("text:disc_break_with_post", 1_000 * m),
-            ("text:disc_break_with_replaced_nodes", 1_000 * m),
-            ("list:break_at_glue", 100_000 * m),
-            ("list:break_at_penalty", 100_000 * m),
-            ("list:break_at_kern", 5_000 * m),
-            ("list:break_at_disc", 150_000 * m),
-            ("list:disc_break_with_pre", 100_000 * m),
-            ("list:disc_break_with_post", 60_000 * m),
-            ("list:disc_break_with_replaced_nodes", 60_000 * m),
-            ("discardables_following_chosen_breaks", 200_000 * m),
-            ("broken_penalty_lines", 200_000 * m),
-            ("interline_penalty_nodes", 500_000 * m),
-            ("line_past_end_of_width_sequence", 500_000 * m),
-            ("line_past_end_of_indent_sequence", 250_000 * m),
-            ("trailing_glue_removed_816", 35_000 * m),
-            ("space_sf_1000_font", 500_000 * m),
-            ("space_sf_1000_spaceskip", 400_000 * m),
-            ("space_sf_lt1000_font", 60_000 * m),
-            ("space_sf_lt1000_spaceskip", 50_000 * m),
-            ("space_sf_1001to1999_font", 35_000 * m),
-            ("space_sf_1001to1999_spaceskip", 30_000 * m),
-            ("space_sf_ge2000_font", 40_000 * m),
-            ("space_sf_ge2000_spaceskip", 35_000 * m),
-            ("space_sf_ge2000_xspaceskip", 60_000 * m),
-            ("texts_where_1044_modifies_spaceskip", 15_000 * m),
-            ("text_ligatures", 800_000 * m),
-            ("text_font_kerns", 700_000 * m),
-            ("text_explicit_hyphen_discretionaries", 120_000 * m),
-        ]
+        // Second column: what the *random* phases contributed to the counter in a quick run at
+        // seed 0 (150 000 texts + 300 000 lists; the exhaustive phases' share subtracted). The
+        // floor is 35% of that, scaled with the size of the random phases of the tier.
+        let f = TEXT_CASES.1 as f64 / TEXT_CASES.0 as f64;
+        let f = if tier == Tier::Quick { 1.0 } else { f };
+        let random_part: &[(&'static str, u64)] = &[
+            ("texts_checked", 150_000),
+            ("lists_checked", 300_000),
+            ("lines_checked", 2_060_000),
+            ("text_paragraphs_multi_line", 130_000),
+            ("list_paragraphs_multi_line", 208_000),
+            ("paragraphs_hyphenated", 71_000),
+            ("second_pass_reached", 290_000),
+            ("text:break_at_glue", 720_000),
+            ("text:break_at_disc", 381_000),
+            ("text:disc_break_with_pre", 302_000),
+            ("text:disc_break_with_post", 68_000),
+            ("text:disc_break_with_replaced_nodes", 78_000),
+            ("list:break_at_glue", 126_000),
+            ("list:break_at_penalty", 193_000),
+            ("list:break_at_kern", 16_000),
+            ("list:break_at_disc", 172_000),
+            ("list:disc_break_with_pre", 111_000),
+            ("list:disc_break_with_post", 115_000),
+            ("list:disc_break_with_replaced_nodes", 101_000),
+            ("discardables_following_chosen_breaks", 408_000),
+            ("broken_penalty_lines", 553_000),
+            ("interline_penalty_nodes", 1_199_000),
+            ("line_past_end_of_width_sequence", 1_262_000),
+            ("line_past_end_of_indent_sequence", 696_000),
+            ("trailing_glue_removed_816", 75_000),
+            ("space_sf_1000_font", 1_302_000),
+            ("space_sf_1000_spaceskip", 1_069_000),
+            ("space_sf_lt1000_font", 161_000),
+            ("space_sf_lt1000_spaceskip", 132_000),
+            ("space_sf_1001to1999_font", 93_000),
+            ("space_sf_1001to1999_spaceskip", 76_000),
+            ("space_sf_ge2000_font", 113_000),
+            ("space_sf_ge2000_spaceskip", 93_000),
+            ("space_sf_ge2000_xspaceskip", 169_000),
+            ("texts_where_1044_modifies_spaceskip", 52_000),
+            ("text_ligatures", 2_195_000),
+            ("text_font_kerns", 1_817_000),
+            ("text_explicit_hyphen_discretionaries", 323_000),
+        ];
+        let mut v: Vec<(&'static str, u64)> = vec![("sf_enum_checked", SF_ENUM_CASES), ("lists_enum_checked", lists_enum_cases())];
+        for (name, n) in random_part {
+            if *n > 0 {
+                v.push((name, (*n as f64 * 0.35 * f) as u64));
+            }
+        }
+        v
     }
     fn calibrate(&self, obs: &mut Obs) {
         calib::calibrate(obs);
